@@ -436,8 +436,15 @@ def panic_audit(ctx, rule="C09.R3", only=None, sessions_ok=None):
             idx = counters.get((b.path, base), 0)
             counters[(b.path, base)] = idx + 1
             role = "%s#%d" % (base, idx)
-            # (i) length guard
-            g = length_guarded(b, bi)
+            # (i) length guard - which says nothing about a `str` sliced at a byte offset: inside a multi-byte character the slice
+            # panics however long the string is (only get(..) / is_char_boundary / an ASCII check make that safe)
+            on_str = t["k"] == "call" and cls == "index" and ((t["f"].get("full") or "").startswith("<str as") or " for str>" in (t["f"].get("res") or ""))
+            g = None if on_str else length_guarded(b, bi)
+            if on_str:
+                cb = [cbi for cbi, ct in b.calls() if ct["f"].get("name") in ("is_char_boundary", "is_ascii") and b.dominates(cbi, bi)]
+                if cb:
+                    ctx.ok(rule, b.path, role, "discharged: dominated by a character-boundary / ASCII test", t["sp"])
+                    continue
             if g is not None:
                 ctx.ok(rule, b.path, role, "discharged: dominated by a length guard at %s" % g["loc"], t["sp"])
                 continue
